@@ -17,7 +17,9 @@ ADOPTING = {'update', 'add_property', 'add_relation', 'add_attachment', 'set_par
 
 
 def fresh():
-    return OL.load_element(OL.base_ontology())
+    O = OL.load_element(OL.base_ontology())
+    O.create_event_type('empty')        # an event type without properties is a mapping of length 0 (falsy)
+    return O
 
 
 def newer():
@@ -58,6 +60,7 @@ def curated():
     add('Ontology', 'delete_concept', lambda O, N: ('c.x',))
     add('Ontology', 'delete_event_source', lambda O, N: ('/s/',))
     add('Ontology', 'delete_event_type', lambda O, N: ('parent',))
+    add('Ontology', 'delete_event_type', lambda O, N: ('empty',))
     add('Ontology', 'delete_object_type', lambda O, N: ('s',))
     add('Ontology', 'update', lambda O, N: (N,))
     add('ObjectType', 'compress', lambda O, N: ())
@@ -341,6 +344,57 @@ def main(argv):
             ck.oracle_failures.append({'signature': 'consumer/event-validator-stale-schema', 'input': {'class': 'EventValidator', 'method': 'is_valid'},
                                        'observed': 'before make_optional: %s, after: %s (expected False, True)' % (r1, r2)})
         ck.cov['evaluations'] += 2
+    except Exception as e:
+        ck.oracle_failures.append({'signature': 'consumer/exception', 'input': {'class': 'EventValidator', 'method': 'is_valid'}, 'observed': repr(e)})
+    # consumer histories: one validator, plain and parsed (namespaced) events, ontology changes in between; after every change the
+    # verdicts must be those of a validator created afterwards, whichever kind of event is validated first
+    try:
+        import io
+        from edxml import EDXMLPullParser, EDXMLWriter
+
+        def parsed(props):
+            buf = io.BytesIO()
+            with EDXMLWriter(buf, validate=False) as w:
+                w.add_ontology(OL.load_element(OL.base_ontology()))
+                w.add_event(EDXMLEvent(props, 'ta', '/s/'))
+            got = []
+
+            class P(EDXMLPullParser):
+                def _parsed_event(self, e):
+                    got.append(e)
+            P(validate=False).parse(io.BytesIO(buf.getvalue()))
+            return got[0]
+        changes = [('make_optional', lambda O: O.get_event_type('ta')['p'].make_optional()),
+                   ('make_mandatory', lambda O: O.get_event_type('ta')['p'].make_mandatory()),
+                   ('remove_property', lambda O: O.get_event_type('ta').remove_property('q')),
+                   ('update-from-newer', lambda O: O.update(newer()))]
+        probes = [{'q': ['5']}, {'p': ['a'], 'q': ['5']}, {'p': ['a']}, {'p': ['a'], 'x': ['y']}]
+        for order in (('plain', 'parsed'), ('parsed', 'plain')):
+            for n1, c1 in changes:
+                for n2, c2 in changes:
+                    O = fresh()
+                    v = EventValidator(O)
+                    evs = {'plain': [EDXMLEvent(p, 'ta', '/s/') for p in probes], 'parsed': [parsed(p) for p in probes]}
+                    for stage, change in (('initial', None), (n1, c1), (n2, c2)):
+                        if change is not None:
+                            try:
+                                change(O)
+                            except Exception:
+                                break
+                        ref = EventValidator(O)
+                        for flavour in order:
+                            for i, ev in enumerate(evs[flavour]):
+                                try:
+                                    got, want = v.is_valid(ev), ref.is_valid(ev)
+                                except Exception:
+                                    continue
+                                ck.cov['evaluations'] += 1
+                                if got != want:
+                                    ck.oracle_failures.append({'signature': 'consumer/event-validator-stale-schema/%s-event' % flavour,
+                                                               'input': {'class': 'EventValidator', 'method': 'is_valid', 'history': [n1, n2], 'stage': stage,
+                                                                         'order': list(order), 'event': probes[i]},
+                                                               'observed': 'long-lived validator says %s, a validator created after the change says %s' % (got, want)})
+        ck.dist('validator-consumer-histories')
     except Exception as e:
         ck.oracle_failures.append({'signature': 'consumer/exception', 'input': {'class': 'EventValidator', 'method': 'is_valid'}, 'observed': repr(e)})
     ck.cov['traces_validated_against_impl'] = ck.cov['evaluations']
